@@ -5,7 +5,7 @@ from props import _tree
 ID = "C01"
 PROPS_MODULE = "H5.Props.C01"
 GEN_MODULES = ["Dispatch", "ParserLiterals", "Constants"]
-CORRESPONDENCE_OPS = ["treev"]
+CORRESPONDENCE_OPS = ["treev", "parse"]
 SOURCES = ["html5lib/html5parser.py", "html5lib/treebuilders/base.py", "html5lib/constants.py", "html5lib/_tokenizer.py"]
 LEVEL = "translation_validation"
 TRUSTED = ["hand model H5.Model.TreeBuilder (one Lean function per Python handler, all 23 phases, dispatch through the tables "
@@ -38,6 +38,32 @@ def run(ctx):
             ctx.fail("differs-from-pinned-reference", "tree / errors of the real parser differ from the reference model",
                      {"case": T.describe(case), "real": T.pretty(r["dom"])[:800], "model": T.pretty(r["model"])[:800]})
             ctx.disagree("treev", r["req"], r["dom"], r["model"])
+    # ---- end to end: characters -> tree through the composed Lean parser (tokenizer model + tree model)
+    from html5lib._inputstream import invalid_unicode_re
+    from h5 import wire
+    preqs, preals = [], []
+    for r in recs:
+        case = r["case"]
+        text = case[0]
+        if not isinstance(text, str) or "\r" in text or invalid_unicode_re.search(text) or not r["dom"].startswith("ok "):
+            continue
+        parts = r["dom"].split(" | ")
+        ws = parts[1].split()
+        n, i, codes = int(ws[0]), 1, []
+        for _ in range(n):
+            codes.append(ws[i])
+            i += 2 + 2 * int(ws[i + 1])
+        preals.append("%s | %s" % (parts[0], " ".join([str(n)] + codes)))
+        preqs.append("parse %s %s %s %s" % (wire.enc_ostr(case[1].lower() if case[1] is not None else None), wire.enc_bool(case[2]), wire.enc_bool(case[3]), wire.enc_str(text)))
+        if len(preqs) >= ctx.scale(4000, 100000):
+            break
+    if ctx.driver_ok and preqs:
+        out = lean.run_driver(preqs)
+        for rq, a, b in zip(preqs, preals, out):
+            ctx.evaluations += 1
+            if a != b and T.dom_view(b) != a:
+                ctx.disagree("parse", rq, a, b)
+        ctx.ops["parse(end-to-end)"] = len(preqs)
     ctx.dist["phase_functions_reached"] = len(hits)
     ctx.notes.append("phase functions reached: %d" % len(hits))
 
